@@ -405,6 +405,9 @@ func (fr *frame) mapUpdate(x *ssa.MapUpdate, st *bstate) {
 	v := fr.val(x.Value)
 	mt := x.Map.Type().Underlying().(*types.Map)
 	fr.checkGuardedValue(x.Map, st, true, x.Pos())
+	if u, ok := x.Map.(*ssa.UnOp); ok && u.Op == token.MUL {
+		fr.checkFieldContents(u.X, st, x.Pos()) // changing the contents of a private map counts as writing the field
+	}
 	if f.sweep["nilmap"] {
 		f.oblige(st, fmt.Sprintf("%s#write-non-nil-map:%s", fnShortName(fr.fn), valueLabel(x.Map)), "safety", f.sweepTags,
 			not(eq(m.Tm, "0")), "assignment to entry in nil map", posStr(f.e.fset, x.Pos()))
@@ -936,6 +939,7 @@ func (f *FnCtx) ghostKey(name, elemSort string, indexed bool, idxSort string) st
 	if _, ok := f.hs.sorts[key]; !ok {
 		if g, ok := f.e.specs.ghosts[name]; ok && g.Stable {
 			f.hs.final[key] = true
+			f.hs.stable[key] = true
 		}
 		if indexed {
 			f.hs.regKey(key, "(Array "+idxSort+" "+elemSort+")")
